@@ -402,3 +402,35 @@ def c01_8(ctx):
     for x in rets:
         if [U(a) for a in x.value.args] != ['self', f.params[1]]:
             ctx.fail(f, x, '__add__ concatenates %s instead of (self, %s): rows would not be appended after the receiver' % ([U(a) for a in x.value.args], f.params[1]))
+
+
+FRESH_RESULT = dict(dictable=['inc', 'exc', 'do', 'sort', 'listby', 'groupby', 'ungroup', 'join', 'xyz', 'unpivot'],
+                    Dict=['__call__', 'do', 'copy', 'if_none'],
+                    dictattr=['__sub__', '__and__', '__add__', '__or__', 'relabel', 'rename', 'copy', '__truediv__'])
+
+
+def fresh_result(ctx, specs):
+    """the value returned by these operations must be a new object: never (an alias of) the receiver or an argument itself.
+    Otherwise a later in-place edit of the result (d2['c'] = ..., del d2.c) silently edits the operand."""
+    fns = [ctx.repo.fn(s) for s in specs]
+    A, S = alias_summaries(ctx, fns)
+    for f in fns:
+        ctx.count(1, f.construct)
+        tops = [a for a in S[f.construct].ret.tops if a != ('F',) and a[1] == 0]
+        if tops:
+            # locate a return statement that hands back the operand
+            site = f.node
+            for r0 in returns_of(f.node):
+                if r0.value is not None and U(r0.value) in [t[0] for t in tops]:
+                    site = r0
+            ctx.fail(f, site, '%s may return its operand `%s` itself instead of a new object: editing the result in place would edit the operand' % (f.qual, tops[0][0]),
+                     witness=dict(returns=sorted(map(str, S[f.construct].ret.tops))), stmt='%s returns %s' % (f.qual, tops[0][0]))
+
+
+@obligation('C01.9', 'ALIAS fresh result', 'table/mapping operations that return a new object',
+            'operations that return a new table never alter their operands: if the result IS the operand (e.g. an early `return self`), the first in-place column assignment on the result alters the operand',
+            axioms=('A1',))
+def c01_9(ctx):
+    specs = ['_dictable:dictable.%s' % m for m in FRESH_RESULT['dictable']] + ['_dict:Dict.%s' % m for m in FRESH_RESULT['Dict']] + \
+            ['_dictattr:dictattr.%s' % m for m in FRESH_RESULT['dictattr']]
+    fresh_result(ctx, specs)
